@@ -13,7 +13,14 @@
    The same holds for the three leaf structs that are property maps of their own (Source, PublicKey,
    Endpoints: the statements of T.GobEncode / ( *T).GobDecode are generated as gobw_leaf / gobr_leaf and
    interpreted by the same gmap / gunmap, one level down: [wenc0] / [rdec0] are the codecs that do not
-   open a nested map) and for the order in which gobDecodeItem tries the shapes (gob_sniff). *)
+   open a nested map) and for the order in which gobDecodeItem tries the shapes (gob_sniff).
+   Builder b43: the one-call leaf codecs (GobEncode / GobDecode of IRI, ActivityVocabularyType, MimeType,
+   LangRef, Content, NaturalLanguageValues, LangRefValue, IRIs; the helpers gobEncodeInt64 .. gobDecodeEndpoints)
+   are interpreted from their generated statement lists too (gobw_codecs / gobr_codecs, [lw_run] / [lr_run]);
+   the closed forms they had before ([wenc0c], [rdec0c], [dec_iris] ..) are kept and PROVED equal to the
+   interpreters for every table set satisfying [codecs_ok] of Model/GobWhole.v (Proofs/GobCodecP.v);
+   likewise the body of gobEncodeItem (gob_enc_item, [genc]) and what GetItemByType presets
+   (gob_typer_presets, [fresh_fields]). *)
 From AP.Model Require Import Prelude Vocab Bytes Layout Pred Dispatch GobTables.
 
 (* ------------------------------------------------------------------ the wire *)
@@ -24,6 +31,7 @@ Inductive wire :=
 | WList (l : list wire)                    (* gob stream of a [][]byte; every element is a byte string *)
 | WMap (m : list (bytes * wire))           (* gob stream of a map[string][]byte *)
 | WKvs (l : list (bytes * bytes))          (* gob stream of a []kv *)
+| WKv (k v : bytes)                        (* gob stream of one kv struct (LangRefValue.GobEncode) *)
 | WOpaque (inner : wire)                   (* gob stream of a GobEncoder value; inner = what GobEncode returned *)
 | WInt (z : Z) | WUint (n : N) | WFloat (micro : Z) | WBool (b : bool)
 | WTime (t : vtime)                        (* time.Time.MarshalBinary: not a gob stream *)
@@ -62,6 +70,7 @@ Fixpoint wire_eqb (a b : wire) {struct a} : bool :=
          | (k, w) :: x' => match aget k m' with Some w' => wire_eqb w w' | None => false end && go x'
          end) m
   | WKvs l, WKvs l' => list_eqb (pair_eqb bytes_eqb bytes_eqb) l l'
+  | WKv k v, WKv k' v' => bytes_eqb k k' && bytes_eqb v v'
   | WOpaque i, WOpaque j => wire_eqb i j
   | WInt x, WInt y => (x =? y)%Z
   | WUint x, WUint y => (x =? y)%N
@@ -98,6 +107,7 @@ Definition wfirst (w : wire) : wire := match w with WCat a _ => a | _ => w end.
 Definition gd_list (w : wire) : outcome (list wire) := match wfirst w with WList l => Ok l | _ => Err end.
 Definition gd_map (w : wire) : outcome (list (bytes * wire)) := match wfirst w with WMap m => Ok m | _ => Err end.
 Definition gd_kvs (w : wire) : outcome (list (bytes * bytes)) := match wfirst w with WKvs l => Ok l | _ => Err end.
+Definition gd_kv (w : wire) : outcome (bytes * bytes) := match wfirst w with WKv k v => Ok (k, v) | _ => Err end.
 Definition gd_bytes (w : wire) : outcome bytes := match wfirst w with WBytes b => Ok b | _ => Err end.
 Definition gd_int (w : wire) : outcome Z := match wfirst w with WInt z => Ok z | _ => Err end.
 Definition gd_uint (w : wire) : outcome N := match wfirst w with WUint n => Ok n | _ => Err end.
@@ -135,6 +145,295 @@ Definition rcodec_names : list (bytes * rcodec) :=
 Definition wcodec_of (n : bytes) : option wcodec := aget n wcodec_names.
 Definition rcodec_of (n : bytes) : option rcodec := aget n rcodec_names.
 
+(* ------------------------------------------------------------------ one-call leaf codecs, interpreted
+   The bodies of the GobEncode / GobDecode methods of the leaf types and of the one-call helper functions
+   are not modelled by hand: the translator emits them statement by statement (glw / glr of
+   Model/GobTables.v, Gen/GobW.gobw_codecs, Gen/GobR.gobr_codecs) and the two interpreters below run them.
+   What a codec handles is a leaf value: *)
+Inductive lval :=
+| LvStr (s : bytes)                        (* IRI, ActivityVocabularyType, MimeType, LangRef, Content, []byte *)
+| LvNlv (c : nlv)                          (* NaturalLanguageValues; None = the nil slice *)
+| LvKv (k v : bytes)                       (* LangRefValue: (Ref, Value); the struct kv: (K, V) *)
+| LvStrs (l : list bytes)                  (* IRIs, [][]byte *)
+| LvInt (z : Z) | LvUint (n : N) | LvFloat (micro : Z) | LvBool (b : bool).
+
+(* what a GobEncode returns: no bytes, the bytes of a string as they are, or the gob stream of a value *)
+Inductive lw_result := LwrEmpty | LwrRaw (s : bytes) | LwrGob (v : lval) | LwrStuck.
+
+Definition n_ref : bytes := B "Ref".
+Definition n_value : bytes := B "Value".
+Definition n_K : bytes := B "K".
+Definition n_V : bytes := B "V".
+Definition n_local : bytes := B "local".
+Definition n_recv : bytes := B "recv".
+Definition n_encode : bytes := B "Encode".
+
+(* x.Ref / x.Value of a LangRefValue *)
+Definition lrv_sel (s : bytes) (e : bytes * bytes) : bytes :=
+  if bytes_eqb s n_ref then fst e else if bytes_eqb s n_value then snd e else [].
+(* m.K / m.V of a kv *)
+Definition kv_sel (s : bytes) (e : bytes * bytes) : bytes :=
+  if bytes_eqb s n_K then fst e else if bytes_eqb s n_V then snd e else [].
+
+Definition is_nilb {A} (l : list A) : bool := match l with [] => true | _ => false end.
+
+(* len(x.<s>) == 0; s = "": the receiver itself *)
+Definition sel_len0 (s : bytes) (v : lval) : bool :=
+  match s, v with
+  | [], LvStr x => is_nilb x
+  | [], LvNlv c => is_nilb (match c with Some l => l | None => [] end)
+  | [], LvStrs l => is_nilb l
+  | _ :: _, LvKv a b => is_nilb (lrv_sel s (a, b))
+  | _, _ => false
+  end.
+
+Record lw_st := mk_lw_st { lw_buf : bool; lw_enc : bool; lw_local : option lval; lw_out : option lval }.
+Definition lw_st0 : lw_st := mk_lw_st false false None None.
+
+(* the helper gobEncodeStringLikeType(g, s) is `if err := g.Encode(s); err != nil { return err }; return nil` *)
+Definition helper_encodes (tbl : list glw) : bool :=
+  match tbl with [LwHelperEncode _; LwHelperRetNil _] => true | _ => false end.
+
+Section LeafWrite.
+Variable wtbl : bytes -> list glw.          (* the write tables, by name *)
+
+Definition lw_step (v : lval) (st : lw_st) (s : glw) : lw_st + lw_result :=
+  match s with
+  | LwRetEmptyIfLen0 sels _ =>
+      match sels with
+      | [] => inr LwrStuck
+      | _ => if forallb (fun s => sel_len0 s v) sels then inr LwrEmpty else inl st
+      end
+  | LwRetRaw _ => inr (match v with LvStr x => LwrRaw x | _ => LwrStuck end)
+  | LwBuffer _ => inl (mk_lw_st true (lw_enc st) (lw_local st) (lw_out st))
+  | LwEncoder _ => if lw_buf st then inl (mk_lw_st true true (lw_local st) (lw_out st)) else inr LwrStuck
+  | LwMkKvs k vv _ =>
+      match v with
+      | LvNlv c => inl (mk_lw_st (lw_buf st) (lw_enc st)
+                          (Some (LvNlv (Some (map (fun e => (lrv_sel k e, lrv_sel vv e)) (match c with Some l => l | None => [] end)))))
+                          (lw_out st))
+      | _ => inr LwrStuck
+      end
+  | LwMkKv k vv _ =>
+      match v with
+      | LvKv a b => inl (mk_lw_st (lw_buf st) (lw_enc st) (Some (LvKv (lrv_sel k (a, b)) (lrv_sel vv (a, b)))) (lw_out st))
+      | _ => inr LwrStuck
+      end
+  | LwMkByteList _ =>
+      match v with
+      | LvStrs l => inl (mk_lw_st (lw_buf st) (lw_enc st) (Some (LvStrs l)) (lw_out st))
+      | _ => inr LwrStuck
+      end
+  | LwEncode via src _ =>
+      if lw_enc st && (bytes_eqb via n_encode || helper_encodes (wtbl via)) then
+        match lw_out st, (if bytes_eqb src n_local then lw_local st else if bytes_eqb src n_recv then Some v else None) with
+        | None, Some p => inl (mk_lw_st (lw_buf st) (lw_enc st) (lw_local st) (Some p))
+        | _, _ => inr LwrStuck
+        end
+      else inr LwrStuck
+  | LwRetBuffer _ =>
+      if lw_buf st then inr (match lw_out st with Some p => LwrGob p | None => LwrEmpty end) else inr LwrStuck
+  | LwHelperEncode _ | LwHelperRetNil _ => inr LwrStuck
+  | LwUnrecognised _ _ => inl st
+  end.
+
+Fixpoint lw_run (tbl : list glw) (v : lval) (st : lw_st) : lw_result :=
+  match tbl with
+  | [] => LwrStuck
+  | s :: r => match lw_step v st s with inl st' => lw_run r v st' | inr res => res end
+  end.
+End LeafWrite.
+
+Definition wire_of_lval (v : lval) : wire :=
+  match v with
+  | LvStr s => WBytes s
+  | LvNlv c => WKvs (match c with Some l => l | None => [] end)
+  | LvKv k v => WKv k v
+  | LvStrs l => WList (map wraw l)
+  | LvInt z => WInt z | LvUint n => WUint n | LvFloat z => WFloat z | LvBool b => WBool b
+  end.
+
+Definition wire_of_result (r : lw_result) : wire :=
+  match r with
+  | LwrEmpty => WEmpty
+  | LwrRaw s => wraw s
+  | LwrGob v => wire_of_lval v
+  | LwrStuck => WRaw gob_garbage
+  end.
+
+(* ---- reading.  What gob.NewDecoder(bytes.NewReader(data)).Decode(&L) gives for a local L of Go type [ty] *)
+Definition ty_bytes : bytes := B "[]byte".
+Definition ty_kvs : bytes := B "[]kv".
+Definition ty_kv : bytes := B "kv".
+Definition ty_bytelist : bytes := B "[][]byte".
+Definition ty_int64 : bytes := B "int64".
+Definition ty_duration : bytes := B "time.Duration".
+Definition ty_uint : bytes := B "uint".
+Definition ty_float64 : bytes := B "float64".
+Definition ty_bool : bytes := B "bool".
+Definition ty_nlv : bytes := B "NaturalLanguageValues".
+
+Definition gd_typed (ty : bytes) (w : wire) : outcome lval :=
+  if bytes_eqb ty ty_bytes then omap LvStr (gd_bytes w)
+  else if bytes_eqb ty ty_kvs then omap (fun l => LvNlv (Some l)) (gd_kvs w)
+  else if bytes_eqb ty ty_kv then omap (fun p => LvKv (fst p) (snd p)) (gd_kv w)
+  else if bytes_eqb ty ty_bytelist then omap (fun l => LvStrs (map wire_bytes_or_garbage l)) (gd_list w)
+  else if bytes_eqb ty ty_int64 || bytes_eqb ty ty_duration then omap LvInt (gd_int w)
+  else if bytes_eqb ty ty_uint then omap LvUint (gd_uint w)
+  else if bytes_eqb ty ty_float64 then omap LvFloat (gd_float w)
+  else if bytes_eqb ty ty_bool then omap LvBool (gd_bool w)
+  else Err.
+
+(* the zero / freshly made value of a declared local *)
+Definition how_make0 : bytes := B "make0".
+Definition lv_fresh (how ty : bytes) : option lval :=
+  if bytes_eqb ty ty_nlv then Some (LvNlv (if bytes_eqb how how_make0 then Some [] else None)) else None.
+
+Record lr_st := mk_lr_st { lr_ty : option bytes; lr_loc : option lval; lr_cur : lval; lr_dec : bool }.
+
+Definition is_wempty (w : wire) : bool := match w with WEmpty => true | _ => false end.
+
+Section LeafRead.
+Variable self : lval -> outcome lval.
+      (* Decode(x) into the receiver itself, a GobDecoder: its GobDecode run on the opaque payload of the stream *)
+Variable meth : bytes -> lval -> outcome lval.      (* L.GobDecode(data) for a local L (helpers only) *)
+Variable w : wire.                                   (* data *)
+
+Definition lr_step (st : lr_st) (s : glr) : lr_st + outcome lval :=
+  match s with
+  | LrRetNilIfEmpty _ => if is_wempty w then inr (Ok (lr_cur st)) else inl st
+  | LrStoreRaw _ => inl (mk_lr_st (lr_ty st) (lr_loc st) (LvStr (wire_bytes_or_garbage w)) (lr_dec st))
+  | LrDeclare how ty _ => inl (mk_lr_st (Some ty) (lv_fresh how ty) (lr_cur st) (lr_dec st))
+  | LrDecoder _ => inl (mk_lr_st (lr_ty st) (lr_loc st) (lr_cur st) true)
+  | LrDecodeLocal _ | LrDecodeLocalErr _ =>
+      match lr_ty st with
+      | Some ty =>
+          match gd_typed ty w with
+          | Ok v => inl (mk_lr_st (lr_ty st) (Some v) (lr_cur st) (lr_dec st))
+          | _ => inr Err
+          end
+      | None => inr Err
+      end
+  | LrTryDecodeRecv _ =>
+      match self (lr_cur st) with
+      | Ok v => inr (Ok v)
+      | _ => inl st
+      end
+  | LrStoreLocal _ =>
+      match lr_loc st with
+      | Some v => inl (mk_lr_st (lr_ty st) (lr_loc st) v (lr_dec st))
+      | None => inl st
+      end
+  | LrAppendKvs ref val _ =>
+      match lr_loc st, lr_cur st with
+      | Some (LvNlv (Some (x :: l))), LvNlv c =>
+          inl (mk_lr_st (lr_ty st) (lr_loc st)
+                 (LvNlv (Some ((match c with Some c' => c' | None => [] end) ++ map (fun e => (kv_sel ref e, kv_sel val e)) (x :: l))))
+                 (lr_dec st))
+      | _, _ => inl st
+      end
+  | LrStoreKv field part _ =>
+      match lr_loc st, lr_cur st with
+      | Some (LvKv k v), LvKv a b =>
+          let x := kv_sel part (k, v) in
+          inl (mk_lr_st (lr_ty st) (lr_loc st)
+                 (if bytes_eqb field n_ref then LvKv x b else if bytes_eqb field n_value then LvKv a x else LvKv a b) (lr_dec st))
+      | _, _ => inl st
+      end
+  | LrAppendStrs _ =>
+      match lr_loc st, lr_cur st with
+      | Some (LvStrs l), LvStrs c => inl (mk_lr_st (lr_ty st) (lr_loc st) (LvStrs (c ++ l)) (lr_dec st))
+      | _, _ => inl st
+      end
+  | LrRetNil _ => inr (Ok (lr_cur st))
+  | LrRetDecodeParam ty _ => if lr_dec st then inr (match gd_typed ty w with Ok v => Ok v | _ => Err end) else inr Err
+  | LrMethodDecode callee _ =>
+      match lr_loc st with
+      | Some l => match meth callee l with
+                  | Ok v => inl (mk_lr_st (lr_ty st) (Some v) (lr_cur st) (lr_dec st))
+                  | _ => inr Err
+                  end
+      | None => inr Err
+      end
+  | LrRetLocalErr _ => inr (match lr_loc st with Some v => Ok v | None => Err end)
+  | LrUnrecognised _ _ => inl st
+  end.
+
+Fixpoint lr_run (tbl : list glr) (st : lr_st) : outcome lval :=
+  match tbl with
+  | [] => Err
+  | s :: r => match lr_step st s with inl st' => lr_run r st' | inr res => res end
+  end.
+End LeafRead.
+
+Definition lr_st0 (cur : lval) : lr_st := mk_lr_st None None cur false.
+
+(* field values with their item parts already encoded (so that the table interpreter is not recursive) *)
+Inductive pfval :=
+| PNil                                   (* nil interface / nil slice / nil pointer *)
+| PItem (w : wire)
+| PItems (l : list wire)
+| PEndp (e : list (fid * pfval))              (* the fields of an Endpoints struct *)
+| PLeaf (v : fval).
+
+
+(* ------------------------------------------------------------------ gobEncodeItem, interpreted
+   The body of gobEncodeItem is not modelled by hand either: Gen/GobW.gob_enc_item lists its statement groups
+   in source order and [genc_run] runs them on an item whose nested items are already encoded. *)
+Inductive pitem :=
+| PiNone                                   (* nil, typed nil *)
+| PiIri (ptr : bool) (s : bytes)           (* IRI / *IRI *)
+| PiIris (l : list bytes)
+| PiItems (ws : list wire)                 (* an item list, members encoded *)
+| PiObj (k : kind) (pfs : list (fid * pfval)).
+
+(* b.Write(bytes): two streams one after the other; writing no bytes changes nothing *)
+Definition wcat (a b : wire) : wire :=
+  match a, b with WEmpty, _ => b | _, WEmpty => a | _, _ => WCat a b end.
+
+Definition pred_holds (pred : bytes) (x : pitem) : bool :=
+  if bytes_eqb pred (B "IsIRI") then match x with PiIri _ _ => true | _ => false end
+  else if bytes_eqb pred (B "IsIRIs") then match x with PiIris _ => true | _ => false end
+  else if bytes_eqb pred (B "IsItemCollection") then match x with PiItems _ | PiIris _ => true | _ => false end
+  else if bytes_eqb pred (B "IsLink") then match x with PiObj KLink _ => true | _ => false end
+  else if bytes_eqb pred (B "IsObject") then match x with PiObj KLink _ => false | PiObj _ _ => true | _ => false end
+  else false.
+
+Section EncItem.
+Variable enc_iris : list bytes -> wire.                        (* IRIs.GobEncode (inside gob.Encode of a GobEncoder) *)
+Variable enc_link : list (fid * pfval) -> wire.                (* Link.GobEncode *)
+Variable enc_switch : kind -> list (fid * pfval) -> wire.      (* switch it.GetType() { .. } of gobEncodeItem *)
+
+Definition callee_result (callee : bytes) (x : pitem) : wire :=
+  if bytes_eqb callee (B "gobEncodeIRIs") then match x with PiIris l => WOpaque (enc_iris l) | _ => WRaw gob_garbage end
+  else if bytes_eqb callee (B "gobEncodeItems") then
+    match x with PiItems ws => WList ws | PiIris l => WList (map wraw l) | _ => WRaw gob_garbage end
+  else if bytes_eqb callee (B "Link.GobEncode") then match x with PiObj KLink pfs => enc_link pfs | _ => WRaw gob_garbage end
+  else WRaw gob_garbage.
+
+Definition genc_step (nil : bool) (x : pitem) (acc : wire) (s : genc_stmt) : wire + wire :=
+  match s with
+  | GENilEmpty _ => if nil then inr WEmpty else inl acc
+  | GEIriBlock byv byp fb _ =>
+      match x with
+      | PiIri ptr s => if (if ptr then byp else byv) then inr (wraw s) else if fb then inr WEmpty else inl acc
+      | _ => inl acc
+      end
+  | GEBuffer _ => inl acc
+  | GEOn pred _ callee _ => if pred_holds pred x then inl (wcat acc (callee_result callee x)) else inl acc
+  | GESwitch pred _ =>
+      if pred_holds pred x then match x with PiObj k pfs => inl (wcat acc (enc_switch k pfs)) | _ => inl acc end else inl acc
+  | GEReturn _ => inr acc
+  | GEUnrecognised _ _ => inl acc
+  end.
+
+Fixpoint genc_run (steps : list genc_stmt) (nil : bool) (x : pitem) (acc : wire) : wire :=
+  match steps with
+  | [] => WRaw gob_garbage
+  | s :: r => match genc_step nil x acc s with inl a => genc_run r nil x a | inr w => w end
+  end.
+End EncItem.
+
 (* ------------------------------------------------------------------ environment: what is read from the source *)
 Record gob_env := mk_gob_env {
   ge_wfuncs : list (bytes * option kind * list gwentry);      (* Gen/GobW.gobw_funcs *)
@@ -150,8 +449,11 @@ Record gob_env := mk_gob_env {
   ge_leaf_r : list (bytes * (list grentry * list bytes));      (* Gen/GobR.gobr_leaf: statements and frame of ( *T).GobDecode *)
   ge_leaf_layouts : list (bytes * list fdecl);                 (* Gen/GobW.gob_leaf_layouts *)
   ge_sniff : list gsniff;                                      (* Gen/GobR.gob_sniff: the shapes gobDecodeItem tries, in order *)
+  ge_codecs_w : list (bytes * list glw);                       (* Gen/GobW.gobw_codecs: the one-call encoders, statement by statement *)
+  ge_codecs_r : list (bytes * list glr);                       (* Gen/GobR.gobr_codecs: the one-call decoders *)
+  ge_enc_item : list genc_stmt;                                (* Gen/GobW.gob_enc_item: the body of gobEncodeItem *)
+  ge_typer_presets : list (bytes * list gpreset);              (* Gen/GobR.gob_typer_presets: what each case of GetItemByType creates *)
   (* hand-modelled code, as repaired (true) or as pinned (false) *)
-  ge_ptr_iri : bool;                (* gobEncodeItem writes an IRI held by pointer (pinned: writes nothing) *)
   ge_endpoints_codec : bool         (* Endpoints.GobEncode/GobDecode are property-map codecs (pinned: write and read nothing) *)
 }.
 
@@ -207,14 +509,27 @@ Definition dec_tag (n : bytes) : bytes := sw_lookup (ge_sw_dec E) (ge_sw_dec_def
 Definition dec_kind (n : bytes) : option kind := tag_kind (dec_tag n).
 Definition dec_fn_item (n : bytes) : bytes := match snd (cut_byte x2f (dec_tag n)) with Some f => f | None => [] end.
 
-(* what ItemTyperFunc (GetItemByType) returns for a type name: kind and preset fields *)
+(* what ItemTyperFunc (GetItemByType) returns for a type name: the fields the expression of the switch case sets,
+   read from the source (Gen/GobR.gob_typer_presets: `&T{Type: typ}`, or the body of the constructor called) *)
+Definition presets_of (tag : bytes) : list gpreset :=
+  match aget tag (ge_typer_presets E) with Some ps => ps | None => [] end.
+
+Definition preset_step (st : bytes * option bytes * list fid) (p : gpreset) : bytes * option bytes * list fid :=
+  let '(typ, tset, nl) := st in
+  match p with
+  | GPTypeDefault _ names d _ => (if in_list names typ then typ else d, tset, nl)      (* if !(L.Contains(typ)) { typ = D } *)
+  | GPType _ => (typ, Some typ, nl)                                                  (* Type: typ *)
+  | GPNlvNew f _ => (typ, tset, nl ++ [f])                                           (* o.F = NaturalLanguageValuesNew() *)
+  | GPUnrecognised _ _ => st
+  end.
+
+Definition run_presets (ps : list gpreset) (n : bytes) : list (fid * fval) :=
+  let '(_, tset, nl) := fold_left preset_step ps (n, None, []) in
+  let base := map (fun f => (f, FNlv (Some []))) nl in
+  match tset with Some t => setf F_Type (FStr t) base | None => base end.
+
 Definition fresh_fields (n : bytes) : list (fid * fval) :=
-  if sw_mentions (ge_sw_typer E) n then
-    let tag := sw_lookup (ge_sw_typer E) (ge_sw_typer_default E) n in
-    if bytes_eqb tag (B "ObjectNew")
-    then setf F_Type (FStr n) [(F_Name, FNlv (Some [])); (F_Content, FNlv (Some []))]
-    else setf F_Type (FStr n) []
-  else [].
+  run_presets (presets_of (sw_lookup (ge_sw_typer E) (ge_sw_typer_default E) n)) n.
 
 (* a type name that makes every switch pick kind [k] *)
 Definition type_selects (k : kind) (ty : bytes) : bool :=
@@ -226,14 +541,6 @@ Definition ftype (k : kind) (f : fid) : option gotype :=
   match find (fun d => fid_beq (fd_fid d) f) (ge_layout E k) with Some d => Some (fd_type d) | None => None end.
 
 (* ------------------------------------------------------------------ encoding *)
-(* field values with their item parts already encoded (so that the table interpreter is not recursive) *)
-Inductive pfval :=
-| PNil                                   (* nil interface / nil slice / nil pointer *)
-| PItem (w : wire)
-| PItems (l : list wire)
-| PEndp (e : list (fid * pfval))              (* the fields of an Endpoints struct *)
-| PLeaf (v : fval).
-
 Definition olist {A} (o : option (list A)) : list A := match o with Some l => l | None => [] end.
 
 Definition nlv_len (c : nlv) : nat := length (olist c).
@@ -284,8 +591,9 @@ Definition iri_nilish (s : bytes) : bool := match s with [] => true | _ => fold_
 Fixpoint fget {A} (f : fid) (l : list (fid * A)) : option A :=
   match l with [] => None | (g, v) :: r => if fid_beq f g then Some v else fget f r end.
 
-(* one encoder call that does not write a nested property map; [None] is the Go zero value of the field *)
-Definition wenc0 (c : wcodec) (ov : option pfval) : wire :=
+(* one encoder call that does not write a nested property map; [None] is the Go zero value of the field.
+   CLOSED FORM (what the interpreted [wenc0] below computes under codecs_ok: Proofs/GobCodecP.wenc0_closed) *)
+Definition wenc0c (c : wcodec) (ov : option pfval) : wire :=
   match c, ov with
   | (CwIri | CwType | CwRawBytes), Some (PLeaf (FStr s)) => wraw s
   | (CwMime | CwLangRef), Some (PLeaf (FStr s)) => wenc_mime s
@@ -306,6 +614,59 @@ Definition wenc0 (c : wcodec) (ov : option pfval) : wire :=
   | CwFloat, None => WFloat 0
   | CwBool, Some (PLeaf (FBool b)) => WBool b
   | CwBool, None => WBool false
+  | _, _ => WEmpty
+  end.
+
+
+(* names of the one-call encoders (the codec names of the property tables) *)
+Definition n_iri_enc : bytes := B "IRI.GobEncode".
+Definition n_type_enc : bytes := B "ActivityVocabularyType.GobEncode".
+Definition n_mime_enc : bytes := B "MimeType.GobEncode".
+Definition n_langref_enc : bytes := B "LangRef.GobEncode".
+Definition n_content_enc : bytes := B "Content.GobEncode".
+Definition n_nlv_enc : bytes := B "NaturalLanguageValues.GobEncode".
+Definition n_lrv_enc : bytes := B "LangRefValue.GobEncode".
+Definition n_iris_enc : bytes := B "IRIs.GobEncode".
+Definition n_int64_enc : bytes := B "gobEncodeInt64".
+Definition n_uint_enc : bytes := B "gobEncodeUint".
+Definition n_float_enc : bytes := B "gobEncodeFloat64".
+Definition n_bool_enc : bytes := B "gobEncodeBool".
+Definition n_strlike_enc : bytes := B "gobEncodeStringLikeType".
+
+Definition codec_w (n : bytes) : list glw :=
+  match aget n (ge_codecs_w E) with Some t => t | None => [LwUnrecognised (B "no such encoder") n] end.
+(* T.GobEncode() / the helper, on a leaf value *)
+Definition lw_exec (n : bytes) (v : lval) : wire := wire_of_result (lw_run codec_w (codec_w n) v lw_st0).
+
+(* gobEncodeItem on a value that is not a struct (no struct encoder is reached) *)
+Definition genc_leaf (nil : bool) (x : pitem) : wire :=
+  genc_run (fun l => lw_exec n_iris_enc (LvStrs l)) (fun _ => WRaw gob_garbage) (fun _ _ => WRaw gob_garbage) (ge_enc_item E) nil x WEmpty.
+
+(* one encoder call that does not write a nested property map, INTERPRETED from the generated statements *)
+Definition wenc0 (c : wcodec) (ov : option pfval) : wire :=
+  match c, ov with
+  | CwIri, Some (PLeaf (FStr s)) => lw_exec n_iri_enc (LvStr s)
+  | CwType, Some (PLeaf (FStr s)) => lw_exec n_type_enc (LvStr s)
+  | CwRawBytes, Some (PLeaf (FStr s)) => wraw s               (* []byte(x.F): the conversion is in the statement itself *)
+  | CwMime, Some (PLeaf (FStr s)) => lw_exec n_mime_enc (LvStr s)
+  | CwLangRef, Some (PLeaf (FStr s)) => lw_exec n_langref_enc (LvStr s)
+  | CwNlv, Some (PLeaf (FNlv l)) => lw_exec n_nlv_enc (LvNlv l)
+  | CwTime, Some (PLeaf (FTime t)) => WTime t                  (* time.Time.GobEncode: external (g4) *)
+  | CwTime, None => WTime vtime_zero
+  | (CwItem | CwItemOrLink), Some (PItem w) => w
+  | (CwItem | CwItemOrLink), Some (PItems l) => genc_leaf false (PiItems l)     (* an ItemCollection field passed as an Item *)
+  | (CwItem | CwItemOrLink), Some (PLeaf (FStr s)) =>         (* an IRI field passed as an Item: a nil IRI writes no bytes *)
+      genc_leaf (iri_nilish s) (PiIri false s)
+  | CwItems, Some (PItems l) => WList l
+  | CwItems, (None | Some PNil) => WList []
+  | CwInt64, Some (PLeaf (FDur z)) | CwInt64, Some (PLeaf (FInt z)) => lw_exec n_int64_enc (LvInt z)
+  | CwInt64, None => lw_exec n_int64_enc (LvInt 0)
+  | CwUint, Some (PLeaf (FUint n)) => lw_exec n_uint_enc (LvUint n)
+  | CwUint, None => lw_exec n_uint_enc (LvUint 0)
+  | CwFloat, Some (PLeaf (FFloat z)) => lw_exec n_float_enc (LvFloat z)
+  | CwFloat, None => lw_exec n_float_enc (LvFloat 0)
+  | CwBool, Some (PLeaf (FBool b)) => lw_exec n_bool_enc (LvBool b)
+  | CwBool, None => lw_exec n_bool_enc (LvBool false)
   | _, _ => WEmpty
   end.
 
@@ -376,37 +737,43 @@ Definition enc_obj (k : kind) (pfs : list (fid * pfval)) : wire := enc_map_gen w
 Definition pfs_type (pfs : list (fid * pfval)) : bytes :=
   match fget F_Type pfs with Some (PLeaf (FStr s)) => s | _ => [] end.
 
-(* gobEncodeItem on a struct: links by Go type, everything else by type name *)
+(* the switch of gobEncodeItem on the type name (the cases are Gen/Switches.sw_gobEncodeItem) *)
+Definition enc_switch (k : kind) (pfs : list (fid * pfval)) : wire :=
+  match enc_kind (pfs_type pfs) with
+  | Some k' => if kind_beq k' k then enc_obj k pfs
+               else match k' with KObject => enc_obj KObject pfs | _ => WEmpty end   (* else: not modelled *)
+  | None => WEmpty
+  end.
+
+(* gobEncodeItem on a struct, closed form: links by Go type, everything else by type name *)
 Definition enc_struct (k : kind) (pfs : list (fid * pfval)) : wire :=
   match k with
   | KLink => enc_obj KLink pfs
-  | _ =>
-      match enc_kind (pfs_type pfs) with
-      | Some k' => if kind_beq k' k then enc_obj k pfs
-                   else match k' with KObject => enc_obj KObject pfs | _ => WEmpty end   (* else: not modelled *)
-      | None => WEmpty
-      end
+  | _ => enc_switch k pfs
   end.
 
+(* IRIs.GobEncode: closed form, and interpreted *)
 Definition wenc_iris (l : list bytes) : wire :=
   match l with [] => WEmpty | _ => WList (map wraw l) end.
+Definition wenc_iris_t (l : list bytes) : wire := lw_exec n_iris_enc (LvStrs l).
+
+(* gobEncodeItem, run from its generated statement groups *)
+Definition genc_item (nil : bool) (x : pitem) : wire :=
+  genc_run wenc_iris_t (enc_obj KLink) enc_switch (ge_enc_item E) nil x WEmpty.
 
 Fixpoint genc (i : item) : wire :=
-  if is_nil i then WEmpty else
-  match i with
-  | INil | ITNil _ => WEmpty
-  | IIri false s => wraw s
-  | IIri true s => if ge_ptr_iri E then wraw s else WEmpty
-  | IIris _ l =>
-      (* gobEncodeIRIs, then - IRIs also being an item collection - gobEncodeItems into the same buffer *)
-      WCat (WOpaque (wenc_iris (olist l))) (WList (map wraw (olist l)))
-  | IItems _ None => WList []
-  | IItems _ (Some l) =>
-      WList ((fix go (l : list item) : list wire := match l with [] => [] | x :: r => genc x :: go r end) l)
-  | IObj _ k fs =>
-      enc_struct k ((fix go (fs : list (fid * fval)) : list (fid * pfval) :=
-                       match fs with [] => [] | (f, v) :: r => (f, pre_fval v) :: go r end) fs)
-  end
+  genc_item (is_nil i)
+    (match i with
+     | INil | ITNil _ => PiNone
+     | IIri p s => PiIri p s
+     | IIris _ l => PiIris (olist l)
+     | IItems _ None => PiItems []
+     | IItems _ (Some l) =>
+         PiItems ((fix go (l : list item) : list wire := match l with [] => [] | x :: r => genc x :: go r end) l)
+     | IObj _ k fs =>
+         PiObj k ((fix go (fs : list (fid * fval)) : list (fid * pfval) :=
+                     match fs with [] => [] | (f, v) :: r => (f, pre_fval v) :: go r end) fs)
+     end)
 with pre_fval (v : fval) : pfval :=
   match v with
   | FItem INil => PNil
@@ -484,14 +851,69 @@ Definition rdec_nlv_method (cur : nlv) (w : wire) : outcome nlv :=
 Definition rdec_mime (cur : bytes) (w : wire) : outcome bytes :=
   match w with WEmpty => Ok cur | _ => gd_bytes w end.
 
+(* names of the one-call decoders *)
+Definition n_iri_dec : bytes := B "IRI.GobDecode".
+Definition n_type_dec : bytes := B "ActivityVocabularyType.GobDecode".
+Definition n_mime_dec : bytes := B "MimeType.GobDecode".
+Definition n_langref_dec : bytes := B "LangRef.GobDecode".
+Definition n_content_dec : bytes := B "Content.GobDecode".
+Definition n_nlv_dec : bytes := B "NaturalLanguageValues.GobDecode".
+Definition n_lrv_dec : bytes := B "LangRefValue.GobDecode".
+Definition n_iris_dec : bytes := B "IRIs.GobDecode".
+Definition n_int64_fn : bytes := B "gobDecodeInt64".
+Definition n_uint_fn : bytes := B "gobDecodeUint".
+Definition n_float_fn : bytes := B "gobDecodeFloat64".
+Definition n_bool_fn : bytes := B "gobDecodeBool".
+Definition n_dur_fn : bytes := B "gobDecodeDuration".
+Definition n_nlv_fn : bytes := B "gobDecodeNaturalLanguageValues".
+Definition n_endpoints_fn : bytes := B "gobDecodeEndpoints".
+
+Definition codec_r (n : bytes) : list glr :=
+  match aget n (ge_codecs_r E) with Some t => t | None => [LrUnrecognised (B "no such decoder") n] end.
+
+Definition no_self : lval -> outcome lval := fun _ => Err.
+Definition no_meth : bytes -> lval -> outcome lval := fun _ _ => Err.
+
+(* ( *T).GobDecode(data) of a leaf type, on the receiver [cur] *)
+Definition lr_method (n : bytes) (cur : lval) (w : wire) : outcome lval :=
+  lr_run no_self no_meth w (codec_r n) (lr_st0 cur).
+(* a helper function: it may call the GobDecode method of a local *)
+Definition lr_helper (n : bytes) (w : wire) : outcome lval :=
+  lr_run no_self (fun callee l => lr_method callee l w) w (codec_r n) (lr_st0 (LvStr [])).
+
+(* IRIs.GobDecode: `Decode(i)` into the receiver, a GobDecoder, runs IRIs.GobDecode on the opaque payload *)
+Fixpoint dec_iris_t (w : wire) (cur : lval) : outcome lval :=
+  lr_run (fun c => match w with
+                   | WOpaque i => dec_iris_t i c
+                   | WCat (WOpaque i) _ => dec_iris_t i c
+                   | _ => Err
+                   end) no_meth w (codec_r n_iris_dec) (lr_st0 cur).
+
+Definition lv_str (v : lval) : bytes := match v with LvStr s => s | _ => [] end.
+Definition lv_nlv (v : lval) : nlv := match v with LvNlv c => c | _ => None end.
+Definition lv_strs (v : lval) : list bytes := match v with LvStrs l => l | _ => [] end.
+Definition lv_int (v : lval) : Z := match v with LvInt z => z | _ => 0%Z end.
+Definition lv_uint (v : lval) : N := match v with LvUint n => n | _ => 0%N end.
+Definition lv_float (v : lval) : Z := match v with LvFloat z => z | _ => 0%Z end.
+Definition lv_bool (v : lval) : bool := match v with LvBool b => b | _ => false end.
+Definition cur_str (cur : option fval) : bytes := match cur with Some (FStr s) => s | _ => [] end.
+
+(* the helper gobDecodeEndpoints is `e := new(Endpoints); err := e.GobDecode(data); return e, err` *)
+Definition endpoints_fn_shape (tbl : list glr) : bool :=
+  match tbl with
+  | [LrDeclare how ty _; LrMethodDecode callee _; LrRetLocalErr _] =>
+      bytes_eqb how (B "new") && bytes_eqb ty (B "*Endpoints") && bytes_eqb callee (B "*Endpoints.GobDecode")
+  | _ => false
+  end.
+
 Section Dec.
 Variable rec : wire -> outcome item.     (* gobDecodeItem on a nested byte string *)
 
 (* gobDecodeItems / tryDecodeItems *)
 Definition dec_items (w : wire) : outcome (list item) := obind (gd_list w) (omapM rec).
 
-(* one decoder call that does not open a nested property map *)
-Definition rdec0 (c : rcodec) (cur : option fval) (w : wire) : outcome fval :=
+(* one decoder call that does not open a nested property map: CLOSED FORM (Proofs/GobCodecP.rdec0_closed) *)
+Definition rdec0c (c : rcodec) (cur : option fval) (w : wire) : outcome fval :=
   match c with
   | CrIri | CrType | CrString => Ok (FStr (wire_bytes_or_garbage w))
   | CrMime | CrLangRef =>
@@ -506,6 +928,27 @@ Definition rdec0 (c : rcodec) (cur : option fval) (w : wire) : outcome fval :=
   | CrUint => obind (gd_uint w) (fun n => Ok (FUint n))
   | CrFloat => obind (gd_float w) (fun z => Ok (FFloat z))
   | CrBool => obind (gd_bool w) (fun b => Ok (FBool b))
+  | CrSource | CrEndpointsMethod | CrEndpointsFn | CrPubKey => Err     (* not used one level down *)
+  end.
+
+(* one decoder call that does not open a nested property map, INTERPRETED from the generated statements *)
+Definition rdec0 (c : rcodec) (cur : option fval) (w : wire) : outcome fval :=
+  match c with
+  | CrIri => omap (fun v => FStr (lv_str v)) (lr_method n_iri_dec (LvStr (cur_str cur)) w)
+  | CrType => omap (fun v => FStr (lv_str v)) (lr_method n_type_dec (LvStr (cur_str cur)) w)
+  | CrString => Ok (FStr (wire_bytes_or_garbage w))            (* x.F = string(raw): in the statement itself *)
+  | CrMime => omap (fun v => FStr (lv_str v)) (lr_method n_mime_dec (LvStr (cur_str cur)) w)
+  | CrLangRef => omap (fun v => FStr (lv_str v)) (lr_method n_langref_dec (LvStr (cur_str cur)) w)
+  | CrNlvMethod => omap (fun v => FNlv (lv_nlv v)) (lr_method n_nlv_dec (LvNlv (cur_nlv cur)) w)
+  | CrNlvFn => omap (fun v => FNlv (lv_nlv v)) (lr_helper n_nlv_fn w)
+  | CrTime => match w with WTime t => Ok (FTime t) | _ => Err end     (* time.Time.GobDecode: external (g4) *)
+  | CrItem => obind (rec w) (fun i => Ok (FItem i))
+  | CrItems => obind (dec_items w) (fun l => Ok (FItems (Some l)))
+  | CrDuration => omap (fun v => FDur (lv_int v)) (lr_helper n_dur_fn w)
+  | CrInt64 => omap (fun v => FInt (lv_int v)) (lr_helper n_int64_fn w)
+  | CrUint => omap (fun v => FUint (lv_uint v)) (lr_helper n_uint_fn w)
+  | CrFloat => omap (fun v => FFloat (lv_float v)) (lr_helper n_float_fn w)
+  | CrBool => omap (fun v => FBool (lv_bool v)) (lr_helper n_bool_fn w)
   | CrSource | CrEndpointsMethod | CrEndpointsFn | CrPubKey => Err     (* not used one level down *)
   end.
 
@@ -559,10 +1002,12 @@ Definition rdec_pubkey (cur : option fval) (w : wire) : outcome fval :=
   obind (rdec_leaf n_pubkey (pubkey_fields cur) w) (fun fs => Ok (pubkey_of fs)).
 
 (* gobDecodeEndpoints: Endpoints.GobDecode into a fresh Endpoints *)
-Definition rdec_endpoints_fn (w : wire) : outcome fval :=
+Definition rdec_endpoints_method (w : wire) : outcome fval :=
   if ge_endpoints_codec E then
     obind (rdec_leaf n_endpoints [] w) (fun fs => Ok (FEndpoints (Some (endp_of fs))))
   else Ok (FEndpoints (Some [])).
+Definition rdec_endpoints_fn (w : wire) : outcome fval :=
+  if endpoints_fn_shape (codec_r n_endpoints_fn) then rdec_endpoints_method w else Err.
 
 Definition rdec (c : rcodec) (cur : option fval) (w : wire) : outcome fval :=
   match c with
@@ -571,7 +1016,7 @@ Definition rdec (c : rcodec) (cur : option fval) (w : wire) : outcome fval :=
       (* Endpoints.GobDecode called through the field: the pinned code ignores input and (nil) receiver *)
       if ge_endpoints_codec E then
         match cur with
-        | Some (FEndpoints (Some _)) => rdec_endpoints_fn w   (* not used by the tables of either tree *)
+        | Some (FEndpoints (Some _)) => rdec_endpoints_method w   (* not used by the tables of either tree *)
         | _ => Panic NilDeref
         end
       else Ok (match cur with Some v => v | None => FEndpoints None end)
@@ -605,7 +1050,8 @@ Definition dec_object (tkey : bytes) (mm : wmap) : outcome item :=
   end.
 
 (* IRIs.GobDecode: nothing on empty input; the opaque value gobEncodeIRIs wrote (its content read the same
-   way); else any [][]byte, each element taken as the bytes of an IRI *)
+   way); else any [][]byte, each element taken as the bytes of an IRI.  CLOSED FORM of [dec_iris_t]
+   (Proofs/GobCodecP.dec_iris_closed) *)
 Fixpoint dec_iris (w : wire) : outcome (list bytes) :=
   match w with
   | WEmpty => Ok []
@@ -631,9 +1077,10 @@ Definition sniff_try (fn : bytes) (w : wire) : option (outcome item) :=
     | Panic p => Some (Panic p)
     | OutOfFuel => Some OutOfFuel
     end
-  else if bytes_eqb fn fn_try_iris then
-    match dec_iris w with Ok l => Some (Ok (IIris false (Some l))) | _ => None end
-  else if bytes_eqb fn fn_try_iri then Some (Ok (IIri false (wire_bytes_or_garbage w)))   (* IRI.GobDecode never fails *)
+  else if bytes_eqb fn fn_try_iris then              (* iris := make(IRIs, 0); iris.GobDecode(data) *)
+    match dec_iris_t w (LvStrs []) with Ok v => Some (Ok (IIris false (Some (lv_strs v)))) | _ => None end
+  else if bytes_eqb fn fn_try_iri then               (* iri := IRI(""); iri.GobDecode(data) *)
+    match lr_method n_iri_dec (LvStr []) w with Ok v => Some (Ok (IIri false (lv_str v))) | _ => None end
   else Some Err.                                                (* a function the model does not know *)
 
 Definition sniff_one (s : gsniff) (w : wire) : option (outcome item) :=
@@ -718,8 +1165,37 @@ Fixpoint wire_modelled (w : wire) : bool :=
          match m with [] => true | (_, x) :: r => wire_modelled x && go r end) m
   | WOpaque i => wire_modelled i
   | WCat a b => wire_modelled a && wire_modelled b
-  | WBytes _ | WKvs _ | WInt _ | WUint _ | WFloat _ | WBool _ | WTime _ => true
+  | WBytes _ | WKvs _ | WKv _ _ | WInt _ | WUint _ | WFloat _ | WBool _ | WTime _ => true
   | WEmpty | WRaw _ => true
   end.
 
 End WithEnv.
+
+(* environments that differ from [E] in one table (used by the refutation witnesses of Props/C04.v, C07.v) *)
+Definition set_rfuncs (E : gob_env) (r : list (bytes * option kind * list grentry)) : gob_env :=
+  {| ge_wfuncs := ge_wfuncs E; ge_rfuncs := r; ge_enc_methods := ge_enc_methods E; ge_dec_methods := ge_dec_methods E;
+     ge_sw_enc := ge_sw_enc E; ge_sw_enc_default := ge_sw_enc_default E; ge_sw_dec := ge_sw_dec E;
+     ge_sw_dec_default := ge_sw_dec_default E; ge_sw_typer := ge_sw_typer E; ge_sw_typer_default := ge_sw_typer_default E;
+     ge_layout := ge_layout E; ge_layout_endpoints := ge_layout_endpoints E;
+     ge_leaf_w := ge_leaf_w E; ge_leaf_r := ge_leaf_r E; ge_leaf_layouts := ge_leaf_layouts E; ge_sniff := ge_sniff E;
+     ge_codecs_w := ge_codecs_w E; ge_codecs_r := ge_codecs_r E; ge_enc_item := ge_enc_item E;
+     ge_typer_presets := ge_typer_presets E;
+     ge_endpoints_codec := ge_endpoints_codec E |}.
+Definition set_sw_dec (E : gob_env) (sw : sw_table) : gob_env :=
+  {| ge_wfuncs := ge_wfuncs E; ge_rfuncs := ge_rfuncs E; ge_enc_methods := ge_enc_methods E; ge_dec_methods := ge_dec_methods E;
+     ge_sw_enc := ge_sw_enc E; ge_sw_enc_default := ge_sw_enc_default E; ge_sw_dec := sw;
+     ge_sw_dec_default := ge_sw_dec_default E; ge_sw_typer := ge_sw_typer E; ge_sw_typer_default := ge_sw_typer_default E;
+     ge_layout := ge_layout E; ge_layout_endpoints := ge_layout_endpoints E;
+     ge_leaf_w := ge_leaf_w E; ge_leaf_r := ge_leaf_r E; ge_leaf_layouts := ge_leaf_layouts E; ge_sniff := ge_sniff E;
+     ge_codecs_w := ge_codecs_w E; ge_codecs_r := ge_codecs_r E; ge_enc_item := ge_enc_item E;
+     ge_typer_presets := ge_typer_presets E;
+     ge_endpoints_codec := ge_endpoints_codec E |}.
+Definition set_wfuncs (E : gob_env) (wf : list (bytes * option kind * list gwentry)) : gob_env :=
+  {| ge_wfuncs := wf; ge_rfuncs := ge_rfuncs E; ge_enc_methods := ge_enc_methods E; ge_dec_methods := ge_dec_methods E;
+     ge_sw_enc := ge_sw_enc E; ge_sw_enc_default := ge_sw_enc_default E; ge_sw_dec := ge_sw_dec E;
+     ge_sw_dec_default := ge_sw_dec_default E; ge_sw_typer := ge_sw_typer E; ge_sw_typer_default := ge_sw_typer_default E;
+     ge_layout := ge_layout E; ge_layout_endpoints := ge_layout_endpoints E;
+     ge_leaf_w := ge_leaf_w E; ge_leaf_r := ge_leaf_r E; ge_leaf_layouts := ge_leaf_layouts E; ge_sniff := ge_sniff E;
+     ge_codecs_w := ge_codecs_w E; ge_codecs_r := ge_codecs_r E; ge_enc_item := ge_enc_item E;
+     ge_typer_presets := ge_typer_presets E;
+     ge_endpoints_codec := ge_endpoints_codec E |}.
